@@ -126,6 +126,11 @@ contract(Q + 'bioResults._calculate_stats', 'C08',
                         "self.data.rhoBarSquare == app('numpy.nan_to_num', 1.0 - (self.data.logLike - self.data.nparam) / self.data.initLogLike))",
              'rhobar2_null': "implies(self.data is not None and self.data.nullLogLike is not None and self.data.nullLogLike != 0, "
                              "self.data.rhoBarSquareNull == app('numpy.nan_to_num', 1.0 - (self.data.logLike - self.data.nparam) / self.data.nullLogLike))",
+             # round 3 (m1): ... and no rho-square is reported when its reference likelihood is absent or zero (whole-result clauses)
+             'rho2_undefined': "implies(self.data is not None and (self.data.initLogLike is None or self.data.initLogLike == 0), self.data.rhoSquare is None)",
+             'rho2_null_undefined': "implies(self.data is not None and (self.data.nullLogLike is None or self.data.nullLogLike == 0), self.data.rhoSquareNull is None)",
+             'rhobar2_undefined': "implies(self.data is not None and (self.data.initLogLike is None or self.data.initLogLike == 0), self.data.rhoBarSquare is None)",
+             'rhobar2_null_undefined': "implies(self.data is not None and (self.data.nullLogLike is None or self.data.nullLogLike == 0), self.data.rhoBarSquareNull is None)",
              'aic': 'implies(self.data is not None, self.data.akaike == 2.0 * self.data.nparam - 2.0 * self.data.logLike)',
              'bic': "implies(self.data is not None, self.data.bayesian == -2.0 * self.data.logLike + self.data.nparam * app('numpy.log', self.data.sampleSize))",
              'varcovar': "implies(self.data is not None and self.data.H is not None, same(self.data.varCovar, "
@@ -143,6 +148,19 @@ contract(Q + 'bioResults._calculate_stats', 'C08',
              'corr_classical': "implies(self.data is not None and self.data.H is not None, " + _corr('varCovar') + ")",
              'corr_robust': "implies(self.data is not None and self.data.H is not None, " + _corr('robust_varCovar') + ")",
              'corr_bootstrap': "implies(self.data is not None and self.data.H is not None and self.data.bootstrap is not None, " + _corr('bootstrap_varCovar') + ")",
+             # round 3 (m1, mutation survivors): the reported eigen-structure is that of MINUS the Hessian, and the condition number is
+             # largest / smallest eigenvalue (float max when the smallest is zero)
+             'eigen_structure_of_minus_hessian': "implies(self.data is not None and self.data.H is not None, "
+                                                 "same(self.data.eigenValues, app('scipy.linalg.eigh', -app('numpy.nan_to_num', self.data.H))[0]) and "
+                                                 "same(self.data.eigenVectors, app('scipy.linalg.eigh', -app('numpy.nan_to_num', self.data.H))[1]))",
+             'singular_values_of_minus_hessian': "implies(self.data is not None and self.data.H is not None, "
+                                                 "same(self.data.singularValues, app('scipy.linalg.svd', -app('numpy.nan_to_num', self.data.H))[1]))",
+             'extreme_eigenvalues': "implies(self.data is not None and self.data.H is not None, "
+                                    "same(self.data.smallestEigenValue, self.data.eigenValues[app('numpy.argmin', self.data.eigenValues)]) and "
+                                    "same(self.data.largestEigenValue, self.data.eigenValues[app('numpy.argmax', self.data.eigenValues)]))",
+             'condition_number': "implies(self.data is not None and self.data.H is not None, "
+                                 "self.data.conditionNumber == ite(self.data.smallestEigenValue != 0, "
+                                 "self.data.largestEigenValue / self.data.smallestEigenValue, FMAX()))",
          },
          replay=_NATIVE_REPLAY,
          invariants={
